@@ -112,6 +112,7 @@ type World struct {
 	icfg    Cfg
 	icfgSet bool
 	Pins       map[int64][]*iavl.Exporter // open exporters per version (C04/C06: pinned versions cannot be deleted)
+	Held       map[int64]*heldTree        // ImmutableTree handles obtained earlier and kept across later steps
 	NormalForm bool // generate every version's writes in normal form (C15)
 	// F1Exposed: a hash-memoising read ran on the working tree while a non-default initial version was pending
 	F1Exposed bool
@@ -230,6 +231,9 @@ func (w *World) newTree() {
 		opts = append(opts, iavl.InitialVersionOption(w.Cfg.InitVer))
 	}
 	w.Tree = iavl.NewMutableTree(w.DB, w.Cfg.Cache, w.Cfg.SkipFast, iavl.NewNopLogger(), opts...)
+	// handles handed out by the replaced tree object belong to its (now stale) node database: one writer object per
+	// store is the supported use, so they are not followed any further
+	w.Held = nil
 }
 
 func (w *World) WorkingVersion() int64 {
@@ -287,7 +291,11 @@ func (w *World) Apply(op Op) (v *Violation) {
 	t := w.Tree
 	switch op.Kind {
 	case "reopen", "lvfo", "dvf", "hop", "lvfo_invalid":
+		held := w.Held
 		w.unpinAll()
+		if op.Kind != "reopen" && op.Kind != "hop" {
+			w.Held = held // a rollback deletes the versions above its target and nothing else: older handles stay valid
+		}
 	}
 	switch op.Kind {
 	case "set":
@@ -460,6 +468,16 @@ func (w *World) Apply(op Op) (v *Violation) {
 		}
 		w.Pins[op.N] = append(w.Pins[op.N], ex)
 		w.Labels["pin"] = true
+	case "hold":
+		it, err := t.GetImmutable(op.N)
+		if err != nil {
+			return w.viol("hold.getimmutable", "GetImmutable(%d): %v", op.N, err)
+		}
+		if w.Held == nil {
+			w.Held = map[int64]*heldTree{}
+		}
+		w.Held[op.N] = &heldTree{it: it, vs: w.Vers[op.N]}
+		w.Labels["hold"] = true
 	case "unpin":
 		if exs := w.Pins[op.N]; len(exs) > 0 {
 			exs[len(exs)-1].Close()
@@ -624,7 +642,82 @@ func (w *World) applyReopen(op Op) *Violation {
 	return nil
 }
 
+type heldTree struct {
+	it *iavl.ImmutableTree
+	vs *VerState
+}
+
+// checkHeld: a committed version handed out earlier keeps answering with exactly its contents while the writer goes
+// on (writes, commits, removals, deletion of OTHER versions). Handles of versions that were deleted or replaced since
+// are dropped, not checked.
+func (w *World) checkHeld() *Violation {
+	vers := make([]int64, 0, len(w.Held))
+	for v := range w.Held {
+		vers = append(vers, v)
+	}
+	sort.Slice(vers, func(i, j int) bool { return vers[i] < vers[j] })
+	for _, v := range vers {
+		h := w.Held[v]
+		if w.Vers[v] != h.vs {
+			delete(w.Held, v)
+			continue
+		}
+		it, vs := h.it, h.vs
+		kvs := sortedKVs(vs.KV)
+		if it.Size() != int64(len(kvs)) || it.Version() != v {
+			return w.viol("held.size", "held handle of version %d: Size=%d Version=%d want %d", v, it.Size(), it.Version(), len(kvs))
+		}
+		if hh := it.Hash(); !bytes.Equal(hh, rhash(vs.Root, 0, false)) {
+			return w.viol("held.hash", "held handle of version %d: Hash %x want %x", v, hh, rhash(vs.Root, 0, false))
+		}
+		for i, kv := range kvs {
+			g, err := it.Get(kv.K)
+			if err != nil || g == nil || !bytes.Equal(g, kv.V) {
+				return w.viol("held.get", "held handle of version %d (latest %d): Get(%q)=%q,nil=%v,%v want %q", v, w.Latest, kv.K, g, g == nil, err, kv.V)
+			}
+			if has, err := it.Has(kv.K); err != nil || !has {
+				return w.viol("held.has", "held handle of version %d: Has(%q)=%v,%v", v, kv.K, has, err)
+			}
+			idx, val, err := it.GetWithIndex(kv.K)
+			if err != nil || idx != int64(i) || !bytes.Equal(val, kv.V) {
+				return w.viol("held.getwithindex", "held handle of version %d: GetWithIndex(%q)=%d,%q,%v want %d,%q", v, kv.K, idx, val, err, i, kv.V)
+			}
+		}
+		_, absent := probeKeys(vs.KV)
+		for k := range w.WKV { // keys written after the version was committed
+			if _, ok := vs.KV[k]; !ok {
+				absent = append(absent, k)
+			}
+		}
+		sort.Strings(absent)
+		for _, k := range absent {
+			g, err := it.Get([]byte(k))
+			if err != nil || g != nil {
+				return w.viol("held.get_absent", "held handle of version %d (latest %d): Get(absent %q)=%q,%v", v, w.Latest, k, g, err)
+			}
+			if has, err := it.Has([]byte(k)); err != nil || has {
+				return w.viol("held.has_absent", "held handle of version %d: Has(absent %q)=%v,%v", v, k, has, err)
+			}
+		}
+		var got []KV
+		ii, err := it.Iterator(nil, nil, true)
+		if err != nil {
+			return w.viol("held.iterator", "held handle of version %d: Iterator: %v", v, err)
+		}
+		got, err = drain(ii)
+		if err != nil || !eqKVs(got, kvs) {
+			return w.viol("held.iterator", "held handle of version %d: Iterator=%s,%v want %s", v, fmtKVs(got), err, fmtKVs(kvs))
+		}
+		w.Cnt["held_handle_checks"]++
+		if v < w.Latest {
+			w.Labels["held_handle_of_older_version_checked"] = true
+		}
+	}
+	return nil
+}
+
 func (w *World) unpinAll() {
+	w.Held = nil
 	for v, exs := range w.Pins {
 		for _, ex := range exs {
 			ex.Close()
@@ -1002,6 +1095,11 @@ func (w *World) Observe() (v *Violation) {
 	}
 	if w.Obs.Reads || w.Obs.Hash || w.Obs.Versions || w.Obs.Proofs || w.Obs.Fast {
 		if v := w.checkVersions(w.Tree, ""); v != nil {
+			return v
+		}
+	}
+	if len(w.Held) > 0 {
+		if v := w.checkHeld(); v != nil {
 			return v
 		}
 	}
